@@ -207,7 +207,11 @@ ACX = "src/deep/processor/context/action_context.py"
 M("c04-period-le", "C04", "C04.TABLE", (TRG, "            if time_since_last < self.__fire_period_ns():", "            if time_since_last <= self.__fire_period_ns():"))
 M("c04-count-lt", "C04", "C04.TABLE", (TRG, "if self.fire_count != -1 and self.fire_count <= self.__stats.fire_count:", "if self.fire_count != -1 and self.fire_count < self.__stats.fire_count:"))
 M("c04-unlimited-sentinel", "C04", "C04.TABLE", (TRG, "if self.fire_count != -1 and self.fire_count <= self.__stats.fire_count:", "if self.fire_count != 0 and self.fire_count <= self.__stats.fire_count:"))
-M("c04-window-ignored", "C04", "C04.TABLE", (TRG, "        if not self.__window.in_window(ts):\n            return False\n", ""))
+M("c04-window-ignored", "C04", "C04.TABLE", (TRG, "        if not self.__window.in_window(ts // 1000000):\n            return False\n", ""))
+M("c04-window-tested-in-ns", "C04", "C04.UNITS", (TRG, "self.__window.in_window(ts // 1000000)", "self.__window.in_window(ts)"))
+M("c04-window-never-copied", "C04", "C04.KEYS", (TRG, "    config = {\n        SPAN: args[SPAN],\n        FIRE_COUNT: args.get(FIRE_COUNT, '1'),\n        FIRE_PERIOD: args.get(FIRE_PERIOD, '1000'),\n    }\n    # the action needs the time window of the tracepoint (if there is one) to know when it is allowed to fire\n    if WINDOW_START in args:\n        config[WINDOW_START] = args[WINDOW_START]\n    if WINDOW_END in args:\n        config[WINDOW_END] = args[WINDOW_END]\n",
+                                                  "    config = {\n        SPAN: args[SPAN],\n        FIRE_COUNT: args.get(FIRE_COUNT, '1'),\n        FIRE_PERIOD: args.get(FIRE_PERIOD, '1000'),\n    }\n"))
+M("c04-window-compared-as-text", "C04", "C04.WINDOW", (TRG, "TracepointWindow(self.__get_int(WINDOW_START, 0), self.__get_int(WINDOW_END, 0))", "TracepointWindow(self.__get_int(WINDOW_END, 0), self.__get_int(WINDOW_START, 0))"))
 M("c04-window-end-exclusive-start", "C04", "C04.WINDOW", (TPC, "            return self._start <= ts\n", "            return self._start >= ts\n"))
 M("c04-period-us", "C04", "C04.UNITS", (TRG, "return self.fire_period * 1_000_000", "return self.fire_period * 1_000"))
 M("c04-period-key", "C04", "C04.UNITS", (TRG, "        return self.__get_int(FIRE_PERIOD, 1000)", "        return self.__get_int(FIRE_COUNT, 1000)"))
@@ -325,7 +329,7 @@ M("c11-log-also-when-collecting", "C11", "C11.BUILD", (TRG, "    if SNAPSHOT not
 M("c11-snapshot-when-no-collect", "C11", "C11.BUILD", (TRG, "        if args[SNAPSHOT] == NO_COLLECT:\n            return None\n", "        if args[SNAPSHOT] == NO_COLLECT and LOG_MSG in args:\n            return None\n"))
 M("c11-metric-empty-list", "C11", "C11.BUILD", (TRG, "    if metrics is None or len(metrics) == 0:\n        return None\n", "    if metrics is None:\n        return None\n"))
 M("c11-span-default-period", "C11", "C11.SIB", (TRG, "        SPAN: args[SPAN],\n        FIRE_COUNT: args.get(FIRE_COUNT, '1'),\n        FIRE_PERIOD: args.get(FIRE_PERIOD, '1000'),", "        SPAN: args[SPAN],\n        FIRE_COUNT: args.get(FIRE_COUNT, '1'),\n        FIRE_PERIOD: args.get(FIRE_PERIOD, '0'),"))
-M("c11-metric-no-condition", "C11", "C11.SIB", (TRG, "    condition = args[CONDITION] if CONDITION in args else None\n    return LocationAction(tp_id, condition, {\n        'metrics': metrics,", "    condition = None\n    return LocationAction(tp_id, condition, {\n        'metrics': metrics,"))
+M("c11-metric-no-condition", "C11", "C11.SIB", (TRG, "    condition = args[CONDITION] if CONDITION in args else None\n    config = {\n        'metrics': metrics,", "    condition = None\n    config = {\n        'metrics': metrics,"))
 M("c11-log-fire-count-from-period", "C11", "C11.SIB", (TRG, "        LOG_MSG: args[LOG_MSG],\n        FIRE_COUNT: args.get(FIRE_COUNT, '1'),", "        LOG_MSG: args[LOG_MSG],\n        FIRE_COUNT: args.get(FIRE_PERIOD, '1'),"))
 M("c11-stage-dropped", "C11", "C11.KEYS", (TRG, "    if STAGE in args:\n        config[STAGE] = args[STAGE]\n", ""))
 M("c11-frame-type-key", "C11", "C11.KEYS", (TRG, "        FRAME_TYPE: args.get(FRAME_TYPE, SINGLE_FRAME_TYPE),\n", "        STACK: args.get(FRAME_TYPE, SINGLE_FRAME_TYPE),\n"))
